@@ -44,7 +44,7 @@ def unpack_parameter(
 
 def check_parameter(data: bytearray) -> bool:
     """Check if parameter contains any bytes besides 0xFF."""
-    return any(x for x in data if x != BYTE_UNDEFINED)
+    return any(x != BYTE_UNDEFINED for x in data)
 
 
 def _normalize_parameter_value(value: ParameterValue) -> int:
